@@ -8,6 +8,10 @@ OPS += [
  # (`Pipeable.compose`), base cases `Relay.pipeable` (map / filter / scan / skip) and `Take.pipeable`
  ("pipeline", "{S1 L1 S2 L2 α β γ : Type} {M1 : Machine S1 L1 α β} {M2 : Machine S2 L2 β γ} (P1 : Pipeable M1) (P2 : Pipeable M2)",
   "compose M1 M2", "(P1.compose P2).safe s hs", "ComposeSafe"),
+ # closed pull pipelines pipe!(<head>, <stages of any length>, for_each(f)): head = from_iter / concat! / flatten (`UpSide`),
+ # stages = any `Pipeable` (Inv/ComposeInst.lean)
+ ("closed_pipeline", "{S1 L1 S2 L2 α β γ : Type} {Msrc : Machine S1 L1 α β} {Mmid : Machine S2 L2 β γ} (hsrc : UpSide Msrc) (hmid : Pipeable Mmid)",
+  "compose (compose Msrc Mmid) (ForEach.machine γ)", "closed_pipeline_safe hsrc hmid s hs", "ComposeInst"),
 ]
 READABLE = {
  "01": ("GreetFirstOnce", "greetFirstOnce_of_clean hs (fun v hv => h.1 v (by unfold G.viols; exact List.mem_append_right _ hv)) k",
